@@ -14,6 +14,7 @@ package main
 //                           and registered it (the lock is released; its goroutine starts next)
 
 import (
+	"os"
 	"runtime"
 	"sync"
 	"time"
@@ -32,6 +33,8 @@ type hookState struct {
 	replayed map[uint32]int // cid → queue length at stream.join.added (= size of the cache replay)
 	stream   *media.Stream  // the stream of the running service scenario
 }
+
+var debugHooks = os.Getenv("C08_DEBUG") != ""
 
 var hooks = &hookState{muxPops: map[uint64]int{}, retired: map[uint64]bool{}, consPops: map[uint32]int{}, replayed: map[uint32]int{}}
 
@@ -117,6 +120,9 @@ func (h *hookState) muxReturned() int {
 	n := 0
 	for _, v := range h.muxPops {
 		n += v
+	}
+	if len(h.muxPops) > 1 && debugHooks {
+		println("DEBUG: several muxer workers in one epoch", len(h.muxPops), n)
 	}
 	return n
 }
